@@ -6,6 +6,7 @@ import (
 	"github.com/RoaringBitmap/roaring/v2"
 	segment "github.com/blevesearch/scorch_segment_api/v2"
 	"os"
+	"runtime"
 	"runtime/debug"
 	"sync"
 
@@ -178,6 +179,14 @@ func checkC10(c *ctx) {
 	defer debug.SetGCPercent(old)
 	savedV := zap.ValidateDocFields
 	defer func() { zap.ValidateDocFields = savedV }()
+	// synonym fields without definitions are frequent in these histories (a builder that skips an
+	// empty thesaurus leaves an address of an earlier build in its tables)
+	zh.SynEmptyChance = 3
+	defer func() { zh.SynEmptyChance = 9 }()
+	if bad := manyPostingsLists(c); bad != "" {
+		c.Violation("C10 "+bad, false)
+		return
+	}
 	n := c.n(120, 3000)
 	for i := 0; i < n; i++ {
 		h := genHistory(c)
@@ -357,4 +366,80 @@ func checkC10(c *ctx) {
 			return
 		}
 	}
+}
+
+// manyPostingsLists: two batches with more than 32768 postings lists each, of different shapes, built
+// one after the other on one P with the collector off (the second draws the first one's builder):
+// 40000 documents with nothing but _id, then 36000 documents with _id and one term of their own in
+// field f.  The second segment is checked against its batch by construction.
+func manyPostingsLists(c *ctx) string {
+	oldP := runtime.GOMAXPROCS(1)
+	defer runtime.GOMAXPROCS(oldP)
+	var b1, b2 zh.Batch
+	for d := 0; d < 40000; d++ {
+		b1 = append(b1, zh.Doc{Fields: []zh.Field{zh.IDField(fmt.Sprintf("x%06d", d))}})
+	}
+	for d := 0; d < 36000; d++ {
+		b2 = append(b2, zh.Doc{Fields: []zh.Field{zh.IDField(fmt.Sprintf("y%06d", d)),
+			{Name: "f", Len: 1, Toks: []zh.Tok{{Term: fmt.Sprintf("u%06d", 35999-d), Freq: 1}}}}})
+	}
+	bad := ""
+	func() {
+		defer func() {
+			if r := recover(); r != nil {
+				bad = fmt.Sprintf("the second build panics: %v", r)
+			}
+		}()
+		s1, _, err := zh.Build(b1, 1026)
+		if err != nil {
+			bad = "first build failed: " + err.Error()
+			return
+		}
+		_ = s1
+		s2, _, err := zh.Build(b2, 1026)
+		if err != nil {
+			bad = "second build failed: " + err.Error()
+			return
+		}
+		if s2.Count() != 36000 {
+			bad = fmt.Sprintf("second segment counts %d documents", s2.Count())
+			return
+		}
+		dict, err := s2.Dictionary("f")
+		if err != nil {
+			bad = "Dictionary(f): " + err.Error()
+			return
+		}
+		idd, err := s2.Dictionary("_id")
+		if err != nil {
+			bad = "Dictionary(_id): " + err.Error()
+			return
+		}
+		for d := 0; d < 36000; d += 1 + d%7 {
+			for _, q := range []struct {
+				dict segment.TermDictionary
+				term string
+			}{{dict, fmt.Sprintf("u%06d", 35999-d)}, {idd, fmt.Sprintf("y%06d", d)}} {
+				pl, err := q.dict.PostingsList([]byte(q.term), nil, nil)
+				if err != nil {
+					bad = "PostingsList: " + err.Error()
+					return
+				}
+				it := pl.Iterator(true, true, false, nil)
+				p, err := it.Next()
+				if err != nil || p == nil || p.Number() != uint64(d) || pl.Count() != 1 {
+					bad = fmt.Sprintf("term %q of the second batch must have exactly document %d: count %d, first hit %v (err %v)", q.term, d, pl.Count(), p, err)
+					return
+				}
+			}
+		}
+		s1.Close()
+		s2.Close()
+	}()
+	c.Case("many-postings-lists", true)
+	c.Count("histories_with_more_than_32768_postings_lists")
+	if bad != "" {
+		return "a batch of 40000 documents (40000 postings lists) followed, on the same pooled builder, by a batch of 36000 documents with 72000 postings lists: " + bad
+	}
+	return ""
 }
